@@ -133,6 +133,11 @@ def writeTrace (slow : Option Nat) (slowChunk : Nat) : Bytes → List (Bytes × 
 
 def accepted (ws : List (Bytes × Nat)) : Bytes := (ws.map fun w => w.1.take w.2).flatten
 
+/-- number of bytes `Channel.send(..., read_back=True)` reads back for the bytes `b` it has written:
+    `len(b) + b.count(b"\r") + b.count(b"\n")` — the model's own expression
+    (`chunk.length + countNl chunk` in `Chan.sendLoop`), see `C03.readBack_model`, `C03.readBack_eq` -/
+def readBack (b : Bytes) : Nat := b.length + Chan.countNl b
+
 def slices (n : Nat) : Nat → Bytes → List Bytes
   | 0, _ => []
   | _ + 1, [] => []
@@ -185,7 +190,7 @@ def c03 (cfg : Cfg) (op : Op) (o : OpObs) : Bool :=
                  && accepted o.writes == b
     | .err .illegal => !ign && Chan.forbidden cfg.blacklist b && o.writes.isEmpty
     | _ => false
-  | .send b _ _ ign =>
+  | .send b rb _ ign =>
     -- a rejected `send` may already have delivered earlier slices: what reached the transport
     -- is a prefix of the request and contains no forbidden byte
     let fine := ign || !Chan.forbidden cfg.blacklist b
@@ -193,15 +198,24 @@ def c03 (cfg : Cfg) (op : Op) (o : OpObs) : Bool :=
     | .unit => fine && accepted o.writes == b
     | .err .illegal => !fine && (accepted o.writes).isPrefixOf b
                          && !Chan.forbidden cfg.blacklist (accepted o.writes)
+    -- TimeoutError (or blocking for ever) is justified only by a read-back that is still owed
+    -- bytes: the call asked for read-back and fewer bytes were delivered to it than the echo of
+    -- what it had written.  Without read-back `send` never waits, so it never times out.
+    | .err .timeout | .err .hang =>
+      fine && (accepted o.writes).isPrefixOf b
+        && rb && decide (ds.flatten.length < readBack (accepted o.writes))
     | .err _ => fine && (accepted o.writes).isPrefixOf b
     | _ => false
-  | .sendline b _ _ =>
+  | .sendline b rb _ =>
     let b := b ++ [13]
     let fine := !Chan.forbidden cfg.blacklist b
     match o.res with
     | .unit => fine && accepted o.writes == b
     | .err .illegal => !fine && (accepted o.writes).isPrefixOf b
                          && !Chan.forbidden cfg.blacklist (accepted o.writes)
+    | .err .timeout | .err .hang =>
+      fine && (accepted o.writes).isPrefixOf b
+        && rb && decide (ds.flatten.length < readBack (accepted o.writes))
     | .err _ => fine && (accepted o.writes).isPrefixOf b
     | _ => false
   | .sendcontrol n =>
